@@ -70,7 +70,7 @@ _EXTRA = {
            + ["body_cache_" + x for x in ["_NewTagCache", "_NewStringInterner"]] + ["body_identity_" + x for x in ["_StringStringMap", "Accumulator_AddString"]],
     "C14": ["body_m3_" + x for x in ["noopMetric_ReportCount", "noopMetric_ReportGauge", "noopMetric_ReportTimer", "noopMetric_ReportSamples"]],
     "C15": ["body_thriftudp_" + x for x in ["_NewTUDPClientTransport", "_NewTMultiUDPClientTransport", "TUDPTransport_Conn"]],
-    "C16": ["body_m3__NewReporter", "body_m3_reporter_calculateSize", "body_m3_resourcePool_getProto", "body_m3__newResourcePool"],
+    "C16": ["body_m3__NewReporter", "body_m3_reporter_calculateSize", "body_m3_reporter_calculateBucketSize", "body_m3_resourcePool_getProto", "body_m3__newResourcePool"],
     "C17": ["body_prometheus_" + x for x in ["reporter_RegisterCounter", "reporter_RegisterGauge", "reporter_RegisterTimer", "Configuration_NewReporter",
                                              "_DefaultHistogramBuckets", "_DefaultSummaryObjectives", "reporter_Flush"]],
 }
